@@ -125,7 +125,7 @@ def main(c):
     enumerate_faults(c, exe_ev, base_evbig, "EventsTrace", "EventsTraceBig.cfg", "evmany", 400, sd=c04.SD, insert=ev_insert)
     # ---- asynchronous I/O ----
     base_net = [c06.random_program(rnd) for _ in range(c.pick(12, 120))] + [c06.accept_program(rnd) for _ in range(c.pick(6, 60))]
-    base_net += [c06.connect_program({"plan": rnd.choice([["O"], ["F", "O"], ["R", "P"], ["F", "F"], ["P", "N"]]), "timeo": rnd.random() < 0.5, "cancel": 0}) for _ in range(c.pick(8, 60))]
+    base_net += [c06.connect_program({"plan": rnd.choice([["O"], ["F", "O"], ["R", "P"], ["F", "F"], ["P", "N"]]), "timeo": rnd.choice(["none", "short", "short", "zero"]), "cancel": 0}) for _ in range(c.pick(8, 60))]
     enumerate_faults(c, c06.build(c), base_net, "NetTrace", "NetTrace.cfg", "net", c.pick(10, 40), sd=c06.SD, insert=ev_insert)
     # ---- buffered reader / writer ----
     base_nb = [c07.reader_program(rnd) for _ in range(c.pick(8, 80))] + [c07.writer_program(rnd, zero=True) for _ in range(c.pick(8, 80))]
